@@ -118,6 +118,29 @@ func scenariosC04(rng *rand.Rand, thorough bool) []Scenario {
 			Script: []Event{sync, grow(1), sync},
 			Peers:  []Behaviour{{Kind: "lighterFork", H: d, N: d - 1}, honest()}})
 	}
+	// --- sync-peer bookkeeping around "current" ---
+	{
+		// a sync peer with a shorter view brings the client to "current"; only then does the honest peer
+		// connect, with a longer chain that does not grow: it has to be asked at its arrival
+		add(Scenario{Name: "laggingSync-then-honest", Len: L(), HoldCurrent: true, NoRedial: true, Deadline: 4 * time.Second,
+			Script: []Event{sleep(200)},
+			Peers:  []Behaviour{{Kind: "lagging", H: 2 + rng.Intn(5)}, honest()}})
+		d := 3 + rng.Intn(4)
+		add(Scenario{Name: "forkSync-then-honest", Len: L(), HoldCurrent: true, NoRedial: true, Deadline: 4 * time.Second,
+			Script: []Event{sleep(200)},
+			Peers:  []Behaviour{{Kind: "lighterFork", H: d, N: d - 1}, honest()}})
+		// the sync peer leaves while the client is current; the honest peer stays and announces the next block
+		add(Scenario{Name: "syncPeerLeaves-fresh", Len: L(), Barrier: true, NoRedial: true, Deadline: 4 * time.Second,
+			Script: []Event{sync, {Kind: "drop", A: 0}, sleep(200), grow(1), sync},
+			Peers:  []Behaviour{{Kind: "disconnectAt", H: 1 << 30}, honest()}})
+		// the same, but the next block only comes when the tip is more than 24 hours old: the chain is built
+		// with a tip 24 h minus a few seconds in the past, so that the client is current when the sync
+		// peer leaves and no longer when the block is announced
+		add(Scenario{Name: "syncPeerLeaves-oldTip", Len: L(), Barrier: true, NoRedial: true, Deadline: 5 * time.Second,
+			TipAge: 24*time.Hour - 7*time.Second,
+			Script: []Event{sync, {Kind: "drop", A: 0}, {Kind: "age"}, grow(1), sync},
+			Peers:  []Behaviour{{Kind: "disconnectAt", H: 1 << 30}, honest()}})
+	}
 	return out
 }
 
